@@ -254,6 +254,13 @@ Definition slice_limit (a : list value) (limit : Z) : res (list value) :=
     else Ok a                                                          (* :258 *)
   else Ok [].                                                          (* :261 *)
 
+(* The lists of the model are unbounded; a Go slice is not: len(a) is an int,
+   and a slice of 16-byte interface values cannot even come close to 2^63
+   elements.  The window arithmetic of projectSlice (start + limit, both int)
+   cannot overflow on a real slice; on a model list of 2^63 - 2^31 or more
+   elements it would.  Such lists are outside the model. *)
+Definition max_slice_len : Z := two63 - two31.
+
 (* :179-265 projectSlice *)
 Definition project_slice : operator pstate := fun st d _ path v =>
   let* arg :=                                                (* (skip, limit, hasSkip) *)
@@ -281,6 +288,8 @@ Definition project_slice : operator pstate := fun st d _ path v =>
   let '(skip, limit, has_skip) := arg in
   match Get d path with                                      (* :217 *)
   | VArr a =>
+      if max_slice_len <=? len a then Unmodelled             (* not a Go slice: outside the model *)
+      else
       let* w := if has_skip then slice_skip_limit a skip limit else slice_limit a limit in
       Ok (set_merge st path (VArr w))
   | _ => Ok st                                               (* :218-220 *)
